@@ -16,7 +16,10 @@ import (
 
 	"verifharness/kobj"
 
+	appsv1 "k8s.io/api/apps/v1"
+	batchv1 "k8s.io/api/batch/v1"
 	corev1 "k8s.io/api/core/v1"
+	netv1beta1 "k8s.io/api/networking/v1beta1"
 	metav1 "k8s.io/apimachinery/pkg/apis/meta/v1"
 	"k8s.io/apimachinery/pkg/runtime"
 	"k8s.io/apimachinery/pkg/runtime/schema"
@@ -67,6 +70,8 @@ type WatchCall struct {
 }
 
 type Server struct {
+	// Kind of the objects this server serves (kobj.KPod by default)
+	Kind    int
 	mu      sync.Mutex
 	version int
 	objects map[[2]int]*kobj.Obj
@@ -138,6 +143,26 @@ func (s *Server) Set(ns, nm int, labels kobj.Map, node int) *kobj.Obj {
 	s.objects[k] = o
 	s.append(LogEntry{s.version, t, o})
 	return o
+}
+
+// Put creates or modifies an object from a prototype (kind, namespace, name,
+// labels and spec are taken from it); the server assigns identity and version.
+func (s *Server) Put(proto kobj.Obj) *kobj.Obj {
+	s.mu.Lock()
+	defer s.mu.Unlock()
+	s.version++
+	o := proto
+	o.ID = s.nextID
+	o.RV = strconv.Itoa(s.version)
+	s.nextID++
+	k := [2]int{o.NS, o.NM}
+	t := watch.Added
+	if _, ok := s.objects[k]; ok {
+		t = watch.Modified
+	}
+	s.objects[k] = &o
+	s.append(LogEntry{s.version, t, &o})
+	return &o
 }
 
 // Delete removes an object (no-op when absent).  The delete event carries the
@@ -239,11 +264,85 @@ func (s *Server) List(ctx context.Context, _ metav1.ListOptions) (runtime.Object
 		l.Items = append(l.Items, runtime.RawExtension{Object: &notAnObject{}})
 		return l, nil
 	}
-	pl := &corev1.PodList{ListMeta: metav1.ListMeta{ResourceVersion: strconv.Itoa(v)}}
+	return TypedList(s.Kind, strconv.Itoa(v), objs), nil
+}
+
+// TypedList builds the API list object of a kind.
+func TypedList(kind int, rv string, objs []*kobj.Obj) runtime.Object {
+	lm := metav1.ListMeta{ResourceVersion: rv}
+	switch kind {
+	case kobj.KService:
+		l := &corev1.ServiceList{ListMeta: lm}
+		for _, o := range objs {
+			l.Items = append(l.Items, *(o.Go().(*corev1.Service)))
+		}
+		return l
+	case kobj.KRC:
+		l := &corev1.ReplicationControllerList{ListMeta: lm}
+		for _, o := range objs {
+			l.Items = append(l.Items, *(o.Go().(*corev1.ReplicationController)))
+		}
+		return l
+	case kobj.KRS:
+		l := &appsv1.ReplicaSetList{ListMeta: lm}
+		for _, o := range objs {
+			l.Items = append(l.Items, *(o.Go().(*appsv1.ReplicaSet)))
+		}
+		return l
+	case kobj.KDeployment:
+		l := &appsv1.DeploymentList{ListMeta: lm}
+		for _, o := range objs {
+			l.Items = append(l.Items, *(o.Go().(*appsv1.Deployment)))
+		}
+		return l
+	case kobj.KDaemonSet:
+		l := &appsv1.DaemonSetList{ListMeta: lm}
+		for _, o := range objs {
+			l.Items = append(l.Items, *(o.Go().(*appsv1.DaemonSet)))
+		}
+		return l
+	case kobj.KStatefulSet:
+		l := &appsv1.StatefulSetList{ListMeta: lm}
+		for _, o := range objs {
+			l.Items = append(l.Items, *(o.Go().(*appsv1.StatefulSet)))
+		}
+		return l
+	case kobj.KJob:
+		l := &batchv1.JobList{ListMeta: lm}
+		for _, o := range objs {
+			l.Items = append(l.Items, *(o.Go().(*batchv1.Job)))
+		}
+		return l
+	case kobj.KEvent:
+		l := &corev1.EventList{ListMeta: lm}
+		for _, o := range objs {
+			l.Items = append(l.Items, *(o.Go().(*corev1.Event)))
+		}
+		return l
+	case kobj.KIngress:
+		l := &netv1beta1.IngressList{ListMeta: lm}
+		for _, o := range objs {
+			l.Items = append(l.Items, *(o.Go().(*netv1beta1.Ingress)))
+		}
+		return l
+	case kobj.KNode:
+		l := &corev1.NodeList{ListMeta: lm}
+		for _, o := range objs {
+			l.Items = append(l.Items, *(o.Go().(*corev1.Node)))
+		}
+		return l
+	case kobj.KSecret:
+		l := &corev1.SecretList{ListMeta: lm}
+		for _, o := range objs {
+			l.Items = append(l.Items, *(o.Go().(*corev1.Secret)))
+		}
+		return l
+	}
+	pl := &corev1.PodList{ListMeta: lm}
 	for _, o := range objs {
 		pl.Items = append(pl.Items, *(o.Go().(*corev1.Pod)))
 	}
-	return pl, nil
+	return pl
 }
 
 // ---------------------------------------------------------------------
